@@ -682,7 +682,15 @@ func (vc *FuncVC) oblige(kind, label, desc string, pos token.Pos, guard, goal Te
 }
 
 // Query assembles the SMT text for an obligation.
-func (vc *FuncVC) Query(o *Obligation) string {
+func (vc *FuncVC) Query(o *Obligation) string { return vc.query(o, false) }
+
+// QueryEntryOnly is the query of a vacuity guard with every hypothesis dropped that was produced while encoding a
+// block (callee postconditions, loop invariants, heap updates): what remains is the function's own precondition, the
+// global invariants and axioms, and the branch conditions (definitions). If a return site is unreachable even so, it is
+// dead code with respect to the precondition itself (a defensive check), not a sign of contradictory assumptions.
+func (vc *FuncVC) QueryEntryOnly(o *Obligation) string { return vc.query(o, true) }
+
+func (vc *FuncVC) query(o *Obligation, entryOnly bool) string {
 	var b strings.Builder
 	b.WriteString(prelude)
 	for _, d := range vc.tc.structDecl {
@@ -702,6 +710,9 @@ func (vc *FuncVC) Query(o *Obligation) string {
 		// slicing: assertions made in blocks that cannot reach the obligation's block are irrelevant to it
 		// (declarations and definitions are always kept; they constrain nothing)
 		if anc != nil && i < len(vc.declBlock) && vc.declBlock[i] >= 0 && !anc[vc.declBlock[i]] && strings.HasPrefix(d, "(assert") {
+			continue
+		}
+		if entryOnly && i < len(vc.declBlock) && vc.declBlock[i] >= 0 && strings.HasPrefix(d, "(assert") {
 			continue
 		}
 		b.WriteString(d + "\n")
